@@ -61,8 +61,17 @@ extern "C" void harness(void)
 {
   BA::Aut<NA> A; A.draw(AFREE);
   BA::Aut<NB> B; B.draw(BFREE);
-#ifdef KF_EXCLUDE
-  KF_EXCLUDE
+#if ENC == 0 && ALG == 0 && (defined(KF_EXCLUDE_BU_UP_RANK2) || defined(KF_EXPECT_BU_UP_RANK2))
+  // known finding (open): the bottom-up upward algorithm (src/tree_incl_up.hh) joins the macro-states known for a child
+  // instead of choosing one per position, which is wrong as soon as the smaller automaton has a rule of rank >= 2.
+  // EXCLUDE: verify the rest of the space (no such rule present); EXPECT: only that shape, the violation must show up again.
+  { bool rank2 = false; for (unsigned i = 0; i < BA::Aut<NA>::NR; ++i) if (U::Univ<NA>::rule(i).rank >= 2) rank2 = rank2 | A.pres[i];
+#ifdef KF_EXPECT_BU_UP_RANK2
+    vs_assume(rank2);
+#else
+    vs_assume(!rank2);
+#endif
+  }
 #endif
   BA::StateDict dictA, dictB;
 #if SEED
